@@ -223,7 +223,14 @@ func c10run(out *rec.Out, c c10case, stats map[string]int) {
 			stats["cases_after_an_earlier_document_with_the_same_ids"]++
 		}
 	}
-	in, defs, err := eng.Start(g.XML(), nil)
+	doc := g.XML()
+	if len(c.acts)%2 == 1 {
+		// the host's id ENDS IN the id of the task before it (`H__P` next to `P`), the exception task's in the id of N: ids
+		// are opaque names, an activity owns the boundary events attached to ITS id only
+		doc = eng.ContainIDs(doc)
+		stats["ids_that_end_in_another_id"]++
+	}
+	in, defs, err := eng.Start(doc, nil)
 	if err != nil {
 		out.Line("harness-error %v", err)
 		return
